@@ -45,6 +45,15 @@ def corpus():
                                                              ['*', [['Val', {'k': 'list', 'id': 0, 'items': [5, 6]}]], [['', ['Val', {'k': 'dict', 'od': False, 'id': 0, 'items': [['a', 'sa'], ['b', 'sb']]}]]]],
                                                              ['S', [['T', 'T', []]], [['b', ['Val', 4]]]]]]},
         {'target': t, 'spec': ['Call', ['Fn', ['rec']], [['Lit', 1]], [['a', ['Spec', ['Tuple', [['Fn', ['probe', 1]], ['T', 'T', []]]], []]], ['b', ['Lit', 7]]]]},
+        # star parts whose spec is FALSY as a Python object (the empty chain) but evaluates to a non-empty mapping / sequence
+        {'target': {'k': 'dict', 'od': False, 'id': 1, 'items': [['x', 1], ['y', 2]]},
+         'spec': ['Invoke', ['Fn', ['rec']], [['*', [], [['', ['Tuple', []]]]]]]},
+        {'target': {'k': 'dict', 'od': False, 'id': 1, 'items': [['x', 1], ['y', 2]]},
+         'spec': ['Invoke', ['Fn', ['rec']], [['C', [['Lit', 7]], [['x', ['Lit', 'cx']]]], ['*', [], [['', ['Tuple', []]]]]]]},
+        {'target': {'k': 'list', 'id': 1, 'items': [4, 5]},
+         'spec': ['Invoke', ['Fn', ['rec']], [['*', [['Tuple', []]], []]]]},
+        {'target': {'k': 'list', 'id': 1, 'items': [{'k': 'dict', 'od': False, 'id': 2, 'items': [['a', 1]]}, {'k': 'dict', 'od': False, 'id': 3, 'items': [['b', 2]]}]},
+         'spec': ['List', [['Invoke', ['Fn', ['rec']], [['*', [], [['', ['Tuple', []]]]]]]]]},
     ]
 
 
